@@ -385,3 +385,29 @@ def resolve_const_operand(body, op, du=None, depth=0):
                 if all(v is not None for v in vals):
                     return ('bytes', bytes(vals))
     return None
+
+
+def buffer_accessors(prog):
+    """crate functions that just hand out the reader buffer: their return value derives from
+    BufReader::buffer(&self.buf_reader) (found by what they do, e.g. `get_buf`)"""
+    out = set()
+    for b in prog.bodies.values():
+        if b.arg_count != 1 or len(list(b.calls())) != 1:
+            continue
+        rs = roots_of(b, Place({'l': 0, 'p': []}), through_calls=identity_through)
+        if rs and all(r[0] == 'call' and r[1].callee and r[1].callee.is_('buffer_redux::BufReader::buffer') for r in rs):
+            out.add(b.path)
+    return out
+
+
+def is_buffer_call(prog, callee, _cache={}):
+    if callee is None:
+        return False
+    if callee.is_('buffer_redux::BufReader::buffer'):
+        return True
+    key = id(prog)
+    if key not in _cache:
+        _cache.clear()
+        _cache[key] = buffer_accessors(prog)
+    cb = prog.local_callee_body(callee)
+    return cb is not None and cb.path in _cache[key]
